@@ -144,6 +144,13 @@ def check(run):
                                 {"append": 5, "clean": True}]})
     scns.append({"sched": True, "rounds": [{"append": 5600, "clean": True}]})
     scns.append({"sched": True, "rounds": [{"append": 2600, "kill": {"point": "cb.ret", "off": 120}}, {"append": 40, "clean": True}]})
+    # round 8: the log is offered a message it must refuse (beyond the 20 000 000 bytes one entry may hold) between ordinary appends: a
+    # refused append is not an append - no offset is used up, what follows is handed over once and in order, also across a restart
+    scns.append({"rounds": [{"append": 10, "refuse": True, "clean": True}]})
+    scns.append({"rounds": [{"append": 0, "refuse": True, "clean": True}]})
+    scns.append({"rounds": [{"append": 10, "refuse": True, "kill": {"point": "persisted", "off": 4}}, {"append": 5, "clean": True}]})
+    scns.append({"rounds": [{"append": 3, "clean": True}, {"append": 4, "refuse": True, "clean": True}, {"append": 5, "clean": True}]})
+    scns.append({"sched": True, "rounds": [{"append": 10, "refuse": True, "clean": True}]})
     spath = os.path.join(run.scratch, "scenarios.ndjson")
     with open(spath, "w") as f:
         for s in scns:
@@ -210,6 +217,13 @@ def replay(run, path):
         if not ok:
             print("VIOLATION property=C15 replay=%s" % path)
         return 0 if ok else 1
+    # round 8: the log is offered a message it must refuse (beyond the 20 000 000 bytes one entry may hold) between ordinary appends: a
+    # refused append is not an append - no offset is used up, what follows is handed over once and in order, also across a restart
+    scns.append({"rounds": [{"append": 10, "refuse": True, "clean": True}]})
+    scns.append({"rounds": [{"append": 0, "refuse": True, "clean": True}]})
+    scns.append({"rounds": [{"append": 10, "refuse": True, "kill": {"point": "persisted", "off": 4}}, {"append": 5, "clean": True}]})
+    scns.append({"rounds": [{"append": 3, "clean": True}, {"append": 4, "refuse": True, "clean": True}, {"append": 5, "clean": True}]})
+    scns.append({"sched": True, "rounds": [{"append": 10, "refuse": True, "clean": True}]})
     spath = os.path.join(run.scratch, "scenarios.ndjson")
     with open(spath, "w") as f:
         f.write(json.dumps(rp["scenario"]) + "\n")
